@@ -174,6 +174,30 @@ class _Values(SOpaque):
         t = self.eq_term if self.eq_term is not None else getattr(other, "eq_term", None)
         return t if t is not None else False
 
+    def getattr(self, I, name):
+        if name in ("values", "keys", "items"):
+            # a coarser view of the table (its values / names only): equal tables have equal views, not conversely
+            return SFunc("model", lambda I2, a, k: _View(self, name))
+        raise Unsupported(f"{name} of an abstract member table")
+
+
+class _View(SOpaque):
+    def __init__(self, table, which):
+        super().__init__(f"{table.name}.{which}()", cls=object)
+        self.table, self.which = table, which
+
+    def as_absset(self):
+        return _View(self.table, self.which + "-as-set")
+
+    def opaque_eq(self, I, other):
+        if not isinstance(other, _View) or other.which != self.which:
+            return False
+        full = self.table.eq_term if self.table.eq_term is not None else other.table.eq_term
+        coarse = z3.Bool(f"members_equal_as_{self.which}")
+        if full is not None:
+            I.fact(z3.Implies(full, coarse))
+        return coarse
+
 
 def enum_build_contract(literal=False):
     Q = f"{P}.literal_enum_property:LiteralEnumProperty.build" if literal else f"{P}.enum_property:EnumProperty.build"
